@@ -5,8 +5,23 @@ ID = "C07"
 MOD = "harness.props.c07"
 T = "MetadorModel.C07."
 LEAN = dict(
-    modules=["MetadorModel.Model.Container"],
-    theorems=[],
+    modules=["MetadorModel.Props.C07"],
+    theorems=[T + n for n in (
+        "get_sound",
+        "get_complete",
+        "get_none",
+        "get_stored",
+        "get_stored_node",
+        "parent_view",
+        "get_after_set",
+        "one_per_schema",
+        "second_object_refused",
+        "aux_or_unknown_refused",
+        "unknown_refused",
+        "aux_refused",
+        "query_exact",
+        "query_ok_iff",
+    )],
     drivers=["drv_ctr"],
 )
 
